@@ -370,9 +370,9 @@ pub fn check_layout(c: &LayoutCase, st: &mut Stats) -> CheckResult {
 pub fn run(ctx: &Ctx, rep: &mut Report) {
     rep.assume(ASSUME_REF);
     rep.assume("reduced instances of HintBitUnpack run the crate's generic code with (K, omega) smaller than any parameter set; the algorithm is uniform in K and omega");
-    run_generated(ctx, rep, "sig_strings", ctx.n(30_000, 1_500_000), sig_strategy, check_sig);
-    run_generated(ctx, rep, "bit_packing", ctx.n(20_000, 400_000), pack_strategy, check_pack);
-    run_generated(ctx, rep, "layouts", ctx.n(3_000, 60_000), layout_strategy, check_layout);
+    run_generated(ctx, rep, "sig_strings", ctx.n(100_000, 2_000_000), sig_strategy, check_sig);
+    run_generated(ctx, rep, "bit_packing", ctx.n(100_000, 2_000_000), pack_strategy, check_pack);
+    run_generated(ctx, rep, "layouts", ctx.n(10_000, 200_000), layout_strategy, check_layout);
     hint_sweep::<1>(rep, "hint_unpack_exhaustive:K1_omega2", 2, None);
     hint_sweep::<1>(rep, "hint_unpack_exhaustive:K1_omega1", 1, None);
     let alpha = [0u8, 1, 2, 3, 254, 255];
